@@ -126,7 +126,8 @@ class Prop(PropBase):
         if layout == "readonly":
             data.flags.writeable = False
         kw = {"pol_type": "circular"} if cls == "DualPolarizationSignal" else {}
-        z = sigs.make(pb, cls, L, 1 * u.MHz, sigs.T0S[0], nchan=n, data=data, center_freq=400 * u.MHz,
+        z = sigs.make(pb, cls, L, 1 * u.MHz, sigs.T0S[0], nchan=n, data=data,
+                      center_freq=[400 * u.MHz, 0.4 * u.GHz, 4e8 * u.Hz, 400 * u.MHz][var % 4],       # any unit of the caller's choosing
                       freq_align=align, meta={"k": [1, 2], "s": "x"} if var % 3 else {}, **kw)
         return z, big
 
@@ -212,7 +213,11 @@ class Prop(PropBase):
         if call == "fast_len":
             return [z], lambda: pb.fast_len(z)
         if call == "coh" and bb:
-            return [z], lambda: pb.coherent_dedispersion(z, pb.DM(1e-3), ref_freq=z.max_freq)
+            # the reference frequency and the DM are the caller's Quantities too (in a unit of the caller's choosing), or left out
+            rq = [None, z.max_freq, z.max_freq.to(u.GHz), z.center_freq.to(u.kHz)][int(g.integers(4))]
+            dm = pb.DM(1e-3)
+            return [z, dm] + ([rq] if rq is not None else []), \
+                (lambda: pb.coherent_dedispersion(z, dm)) if rq is None else (lambda: pb.coherent_dedispersion(z, dm, ref_freq=rq))
         if call == "chirp" and bb:
             return [z], lambda: pb.DM(1e-3).chirp_from_signal(z)
         if call == "coh_chirp" and bb:
@@ -220,7 +225,10 @@ class Prop(PropBase):
             ch = ch.reshape(ch.shape[:2])
             return [z, ch], lambda: pb.coherent_dedispersion(z, pb.DM(1e-3), chirp=ch)
         if call == "incoh" and radio:
-            return [z], lambda: pb.incoherent_dedispersion(z, pb.DM(5e-2), ref_freq=z.center_freq)
+            rq = [None, z.center_freq, z.center_freq.to(u.GHz), z.max_freq.to(u.Hz)][int(g.integers(4))]
+            dm = pb.DM(5e-2)
+            return [z, dm] + ([rq] if rq is not None else []), \
+                (lambda: pb.incoherent_dedispersion(z, dm)) if rq is None else (lambda: pb.incoherent_dedispersion(z, dm, ref_freq=rq))
         if call == "stft" and bb:
             return [z], lambda: pb.contrib.stft(z, nperseg=4)
         if call == "istft" and bb:
